@@ -349,13 +349,16 @@ class Body:
             for s in self.stmts(bi):
                 if s['k'] == 'a':
                     l, proj = s['p']
+                    if '*' in proj:
+                        continue   # write through a pointer: not a definition of the local itself
                     d[l].append((bi, 'a' if not proj else 'pw', s))
             t = self.term[bi]
             if t is None:
                 continue
             if t['k'] == 'call':
                 l, proj = t['d']
-                d[l].append((bi, 'call' if not proj else 'pwcall', t))
+                if '*' not in proj:
+                    d[l].append((bi, 'call' if not proj else 'pwcall', t))
             elif t['k'] == 'yield':
                 l, proj = t['ra']
                 d[l].append((bi, 'yield', t))
@@ -721,12 +724,45 @@ class Body:
                 fp = t.get('fp')
                 if fp and op_local(fp) is not None:
                     g[dl].add(op_local(fp))
+                # a `&mut X` argument lets the callee write X from the other arguments
+                alocs = [op_local(a) for a in t['args'] if op_local(a) is not None]
+                for a in alocs:
+                    tgt = self._mutref_target(a)
+                    if tgt is not None:
+                        for o in alocs:
+                            if o != a:
+                                g[tgt].add(o)
             elif t and t['k'] == 'yield':
                 l = op_local(t['op'])
                 if l is not None:
                     g[t['ra'][0]].add(l)
         self._fg = g
         return g
+
+    def _mutref_target(self, l, depth=0):
+        """If local l holds `&mut X` (possibly re-borrowed / through deref_mut) return X's base local."""
+        if depth > 6:
+            return None
+        ds = [x for x in self.defs().get(l, []) if x[1] in ('a', 'call')]
+        if len(ds) != 1:
+            return None
+        bi, k, payload = ds[0]
+        if k == 'a':
+            rv = payload['rv']
+            if rv[0] == 'ref' and rv[1] == 'mut':
+                base, proj = rv[2]
+                if '*' in proj:
+                    r = self._mutref_target(base, depth + 1)
+                    return r if r is not None else base
+                return base
+            if rv[0] == 'use' and op_local(rv[1]) is not None and self.locals[l][0].startswith('&mut'):
+                return self._mutref_target(op_local(rv[1]), depth + 1)
+        elif k == 'call':
+            if norm(payload.get('fn', '')) in TRANSPARENT_CALLS and payload['args']:
+                a = op_local(payload['args'][0])
+                if a is not None:
+                    return self._mutref_target(a, depth + 1)
+        return None
 
     def derived_from(self, l):
         """Backward closure: all locals the value of local l may derive from (incl. l)."""
